@@ -99,6 +99,7 @@ class Res:
     solver_s: float = 0.0
     note: str = ""
     binary: str = ""
+    artefacts: list = field(default_factory=list)
 
 
 class Ctx:
@@ -378,7 +379,11 @@ def run_ob(ctx, ob):
                 r.witness = True
             continue
         if st == "FAILURE":
-            fails.append((pr.get("property", "?"), desc, loc_str(pr.get("sourceLocation"))))
+            loc = loc_str(pr.get("sourceLocation"))
+            if any(d in desc and loc.endswith(":" + fn) for d, fn in ARTEFACT_RULES):
+                r.artefacts.append(f"{desc} @ {loc}")
+                continue
+            fails.append((pr.get("property", "?"), desc, loc))
         elif st not in ("SUCCESS",):
             unknown.append((pr.get("property", "?"), f"[{st}] " + desc, loc_str(pr.get("sourceLocation"))))
     r.failures = fails
@@ -504,6 +509,11 @@ def match_known(known, obid, desc, loc):
     return None
 
 
+# CBMC artefacts triaged by rule (DESIGN 10.4): (description substring, function).  CBMC 6.11 reports
+# "memset destination region writeable" for ANY memset over a malloc(sizeof(T*) * n) object whose element count
+# n is symbolic (5-line reproducer in DESIGN 10.4); isa_l_common.c:get_inverse_rows is such a site.
+ARTEFACT_RULES = (("memset destination region writeable", "get_inverse_rows"),)
+
 UB_ONLY_PAT = ("pointer arithmetic", "pointer relation", "arithmetic overflow on signed shl", "shift operand is negative",
                "shift distance", "pointer_arithmetic")
 
@@ -622,6 +632,7 @@ def execute(ctx, obs, native_steps=(), assumptions=(), trusted=(), extra_cov=Non
         "known_findings_matched": [k["text"] for (k, _, _) in known_hit.values()],
         "inconclusive": [r.ob.id + ": " + r.note[:200] for r in results if r.verdict in ("inconclusive", "error")],
         "ub_only": sorted({f"{desc} @ {loc}" for _, desc, loc in ub_only})[:40],
+        "cbmc_artefacts_by_rule": sorted({a for r in results for a in r.artefacts}),
         "samples": [dict(ob=r.ob.id, harness=r.ob.harness, defs=r.ob.defs, unwind=r.ob.unwind, **r.ob.sample) for r in results[:6]],
         "functions_encoded": sorted({t for r in results for t in r.ob.targets}),
         "units": sorted({unit_src(u)[0].replace(REPO + "/", "repo:").replace(VERIF + "/", "verif:") for r in results for u in r.ob.units}),
